@@ -8,6 +8,8 @@ pub mod c07;
 pub mod c08;
 pub mod c09;
 pub mod c10;
+pub mod c11;
+pub mod c14;
 pub mod crash;
 
 pub fn dispatch(a: &Args) -> i32 {
@@ -23,6 +25,8 @@ pub fn dispatch(a: &Args) -> i32 {
         "C08" => c08::run(a),
         "C09" => c09::run(a),
         "C10" => c10::run(a),
+        "C11" => c11::run(a),
+        "C14" => c14::run(a),
         "scenarios" => {
             // debug: run every directed scenario and print the outcome
             let mut code = 0;
